@@ -2,6 +2,7 @@ import Driver.Basic
 import Driver.C35
 import Driver.C01
 import Driver.C06
+import Driver.C07
 open Mitum Mitum.Driver
 
 def step (line : String) : String :=
@@ -9,6 +10,7 @@ def step (line : String) : String :=
   | "C01" :: ts => stepC01 ts
   | "C02" :: ts => stepC02 ts
   | "C06" :: ts => stepC06 ts
+  | "C07" :: ts => stepC07 ts
   | "C35" :: ts => stepC35 ts
   | _ => "bad-op"
 
